@@ -39,12 +39,20 @@ Definition ResOK (G : ghe) (s : st) (sp : pspec) (r : result) : Prop :=
   | RErr e => ps_fails sp = true /\ In e (ps_esc sp)
   end.
 
-Definition Outcome (L : ghe -> st -> clo -> ghost -> Prop) (sp : pspec)
+(** [Bk]: what is known of a pending future beyond its shape.  After a poll ([Outcome]) it is
+    blocked: a promise it waits for has nothing in its channel.  After construction ([Outcome0])
+    nothing is known: a promise may have been fulfilled before its resolver returned. *)
+Definition OutcomeB (Bk : st -> ghost -> Prop) (L : ghe -> st -> clo -> ghost -> Prop) (sp : pspec)
            (G : ghe) (s : st) (g : ghost) (f : fut) : Prop :=
   match f with
   | Ready r => ResOK G s sp r /\ g = g0
-  | Pending c => L G s c g /\ Blocked s g
+  | Pending c => L G s c g /\ Bk s g
   end.
+Notation Outcome := (OutcomeB Blocked).
+Notation Outcome0 := (OutcomeB (fun _ _ => True)).
+
+Lemma Outcome_weaken L sp G s g f : Outcome L sp G s g f -> Outcome0 L sp G s g f.
+Proof. destruct f; simpl; auto. intros [A _]. auto. Qed.
 
 Definition fut_of (c : clo) (ro : option result) : fut :=
   match ro with Some r => Ready r | None => Pending c end.
@@ -102,10 +110,10 @@ Proof.
 Qed.
 
 (** ** nn_wrap at construction *)
-Lemma nn_wrap_build G s g nn v p f f2 s2 :
-  Outcome (fun G s => LiveI G s v p) (spec_I v p) G s g f ->
+Lemma nn_wrap_build Bk G s g nn v p f f2 s2 :
+  OutcomeB Bk (fun G s => LiveI G s v p) (spec_I v p) G s g f ->
   nn_wrap FX nn p (f, s) = (f2, s2) ->
-  s2 = s /\ Outcome (fun G s => LiveW G s nn v p) (spec_W nn v p) G s g f2.
+  s2 = s /\ OutcomeB Bk (fun G s => LiveW G s nn v p) (spec_W nn v p) G s g f2.
 Proof.
   intros O E. unfold nn_wrap in E. destruct nn.
   - destruct f as [r|c]; simpl in O.
@@ -144,7 +152,7 @@ Definition StepSpec (L : ghe -> st -> clo -> ghost -> Prop) (sp : pspec) : Prop 
 Definition BuildSpec (build : st -> fut * st) (bud : ghost)
            (L : ghe -> st -> clo -> ghost -> Prop) (sp : pspec) : Prop :=
   forall G s f s', INV G (s_maps s) -> chans_wf s -> build s = (f, s') ->
-    exists G' g', Step G s bud G' s' g' /\ Outcome L sp G' s' g' f.
+    exists G' g', Step G s bud G' s' g' /\ Outcome0 L sp G' s' g' f.
 
 Lemma Step_chans_wf G s g G' s' g' : Step G s g G' s' g' -> chans_wf s -> chans_wf s'.
 Proof. intros (_ & _ & _ & A). eapply Acct_chans_wf; eauto. Qed.
@@ -167,7 +175,7 @@ Proof.
   intros B G s f s' I C E.
   destruct (complete_inner FX v p s) as [f0 s0] eqn:E0.
   destruct (B G s f0 s0 I C E0) as (G' & g' & St & O).
-  destruct (nn_wrap_build _ _ _ _ _ _ _ _ _ O E) as [-> O2].
+  destruct (nn_wrap_build _ _ _ _ _ _ _ _ _ _ O E) as [-> O2].
   exists G', g'. split; auto.
 Qed.
 
@@ -268,7 +276,7 @@ Section Catch.
         * split; auto.
       + injection E as <- <-. destruct O as [L B1]. exists G', (gsite x0 g'). split.
         * split; auto. split; auto. split; auto. rewrite !gsite_gplus. now apply Acct_frame_l.
-        * split; [now apply L1_catch | now apply Blocked_gsite].
+        * split; [now apply L1_catch | trivial].
   Qed.
 
   Lemma C_step :
